@@ -179,6 +179,25 @@ File-system semantics (atomicity of fs::write, read-only destinations) are not d
             }
         }
     }
+    // the wrappers (command-line tool, asn1! macro) have no output effect of their own: whatever they deliver goes through
+    // the library's one delivery point, so that they succeed, fail and write exactly as compile() does
+    let mut wrapper_bodies = 0;
+    for b in facts.bodies.iter().filter(|b| b.krate == "rasn_compiler_cli" || b.krate == "rasn_compiler_derive") {
+        wrapper_bodies += 1;
+        for bl in &b.blocks {
+            if bl.t != "call" || bl.cleanup {
+                continue;
+            }
+            n_calls += 1;
+            if let Some(what) = output_effect(&bl.callee) {
+                let owner = c08::owner_of(&b.path);
+                ctx.violate("C20.effects", &format!("wrapper:{}|{}", owner, what), &b.file, bl.line,
+                    &format!("`{}` of the {} performs a {} of its own (`{}`): the wrappers deliver through the library only — an effect here happens whether or not compilation succeeds and whatever the library would answer for that destination",
+                        owner, if b.krate == "rasn_compiler_cli" { "command-line tool" } else { "asn1! macro crate" }, what, bl.callee));
+            }
+        }
+    }
+    ctx.floor("C20.effects/wrapper-bodies", wrapper_bodies, 40);
     ctx.oblige_n("C20/calls-classified", n_calls);
     ctx.floor("C20.effects/delivery-effects", effects_seen.iter().filter(|e| e.contains("output_generated")).count(), 2);
     ctx.sample(json!({"effects_on_compile_path": effects_seen}));
